@@ -211,7 +211,7 @@ theorem scaled_free (p : ScaledP) (base : AssetProblem) (dtSum : Rat)
     exact h (z base.n) hs1 hs2 z (hfeas.mp hz)
 
 /-- non-vacuity of `scaled_free` on `exBase` (norm 2, scale range [0, 2], fixed costs 3·4 per unit of scale):
-    the hypotheses hold, the scaled problem has a point of value −27/2 at scale 1 whose base part is a point
+    the hypotheses hold, the scaled problem has a point of value −61/4 at scale 1 whose base part is a point
     of the base rescaled by 1/2 with the same value less 12, and a point at scale 0 of value 0 -/
 example : (∀ d ∈ dispVars exBase.mapping, d < exBase.n) ∧ (∀ r ∈ exBase.rows, ∀ q ∈ r.coeffs, q.1 < exBase.n) ∧
     (0 : Rat) ≤ exP.minScale ∧ (buildScaled exP exBase 4).FeasibleRelaxed exX ∧
